@@ -626,6 +626,7 @@ METHODS = {
     ("bytes", "decode"): m_bytes_decode,
     ("str", "rstrip"): m_str_rstrip,
     ("bytes", "join"): m_bytes_join,
+    ("str", "join"): m_bytes_join,
     ("map", "get"): m_map_get,
     ("map", "pop"): m_map_pop,
     ("set", "add"): m_set_add,
